@@ -1944,6 +1944,21 @@ func (c *RemoteClient) handleRequestResponse(ctx context.Context, message *Messa
 		}
 
 	case *Reject:
+		if msg.MessageType == MessageTypeGetHeaders {
+			// A headers request is identified by its height, which a reject doesn't contain, so the
+			// reject belongs to the oldest pending headers request.
+			for i, request := range c.requests {
+				if request.typ == MessageTypeGetHeaders {
+					request.response <- message
+					c.requests = append(c.requests[:i], c.requests[i+1:]...)
+					return nil
+				}
+			}
+
+			logger.Warn(ctx, "No matching request found for get headers reject")
+			return nil
+		}
+
 		if msg.Hash == nil {
 			logger.Info(ctx, "Received reject with no hash")
 			return nil
